@@ -44,6 +44,8 @@ class HandlerPrims:
         self.by_path[roles.mem_read_bytes] = ("mem_read_bytes", 0)
         self.by_path[roles.mem_write_bytes] = ("mem_write_bytes", 0)
         self.by_path[roles.mem_addr] = ("mem_addr", 0)
+        for p_ in getattr(roles, "mem_addr_noseg", []):
+            self.by_path[p_] = ("mem_addr_noseg", 0)
         self.by_path[roles.instruction_operand] = ("operand", 0)
         self.by_path[roles.instruction_operands_2] = ("operands2", 0)
         for p, n in roles.flag_setters.items():
@@ -175,6 +177,14 @@ class HandlerPrims:
             m = args[1]
             ev.append(("mem_addr", m, site))
             return [(W(("addr", m, rv), 64), path)]
+        if kind == "mem_addr_noseg":
+            # the segment-less effective address (LEA): a primitive like mem_addr, whichever of the two functions holds
+            # the actual computation
+            if self.inline_mem_addr:
+                return None
+            m = args[1]
+            ev.append(("mem_addr", m, site))
+            return [(W(("addr", ("noseg", m), rv), 64), path)]
         if kind == "operand":
             kidx = args[2]
             if not is_int(kidx):
